@@ -91,3 +91,19 @@ def src(e: ast.AST, n: int = 100) -> str:
         s = f"<{type(e).__name__}>"
     s = " ".join(s.split())
     return s if len(s) <= n else s[: n - 3] + "..."
+
+
+def disjuncts(test: ast.expr) -> List[ast.expr]:
+    """Top-level `or` operands of a test (the test itself when it is not a disjunction).  A rejecting guard
+    `if T: raise` rejects condition P for sure only when P is one of these — inside a conjunction it is weakened."""
+    if isinstance(test, ast.BoolOp) and isinstance(test.op, ast.Or):
+        out: List[ast.expr] = []
+        for v in test.values:
+            out += disjuncts(v)
+        return out
+    return [test]
+
+
+def rejects(test: ast.expr, pred) -> bool:
+    """Does `if test: <abort>` abort whenever a condition recognised by `pred` holds?"""
+    return any(pred(d) for d in disjuncts(test))
